@@ -23,6 +23,13 @@ func (e *kvElection) validationLoop(ctx context.Context) {
 	ticker := time.NewTicker(interval)
 	defer ticker.Stop()
 
+	// A read gets as long as a refresh does: a store that answers within half a
+	// heartbeat interval is healthy, however long the interval is.
+	validationTimeout := defaultValidationTimeout
+	if half := e.cfg.HeartbeatInterval / 2; half > validationTimeout {
+		validationTimeout = half
+	}
+
 	consecutiveFailures := 0
 	maxFailures := 2
 
@@ -35,7 +42,7 @@ func (e *kvElection) validationLoop(ctx context.Context) {
 				return
 			}
 
-			validationCtx, cancel := context.WithTimeout(ctx, defaultValidationTimeout)
+			validationCtx, cancel := context.WithTimeout(ctx, validationTimeout)
 			isValid, err := e.validateToken(validationCtx)
 			cancel()
 
